@@ -395,7 +395,7 @@ ERROR_REPLAYS = {"theta1d": (replay_theta, {"d": 1}), "spreads.": (replay_implie
 
 
 def main(tier):
-    bounds = {"histories_and_variants": 'marginal mass outside the truncation box solver-chosen (2-d); default-time underlyings over two successive paths',
+    bounds = {"histories_and_variants": 'marginal mass outside the truncation box solver-chosen (2-d); default-time underlyings over two successive paths; implied threshold: replay on HEM with recoveries 0.25, 0.4, 0.7',
               "grids": "credit grids in 1-d (7 points) and 2-d (7x7 asymmetric; 9x9 symmetric in thorough), thresholds/steps/bounds arbitrary reals with a < -h",
               "closed forms": "dimensions 1..3 for theta, 1..2 for the spread maps",
               "outside": "3-d chain sum (9^3 cells), Brent's method itself (contract stub), Monte-Carlo estimation of default times"}
